@@ -444,15 +444,17 @@ Definition apply_offset (n : N) (l : list row) : list row := skipn (N.to_nat n) 
 Definition apply_limit (n : N) (l : list row) : list row :=
   if n =? 0 then l else firstn (N.to_nat n) l.
 
-(* rows before OFFSET/LIMIT *)
-Definition exec_plan (pfx_of : index -> bytes) (t : list row) (q : query) (pl : plan) : list row :=
-  let ix := p_index pl in
-  let es := index_entries (pfx_of ix) (ix_cols ix) t in
+(* rows before OFFSET/LIMIT, from the content `es` of the plan's index *)
+Definition exec_entries (pfx : bytes) (es : list entry) (q : query) (pl : plan) : list row :=
   let scanned :=
-    if p_desc pl then raw_scan (pfx_of ix) (p_hi pl) (p_lo pl) true es
-    else raw_scan (pfx_of ix) (p_lo pl) (p_hi pl) false es in
+    if p_desc pl then raw_scan pfx (p_hi pl) (p_lo pl) true es
+    else raw_scan pfx (p_lo pl) (p_hi pl) false es in
   let filtered := filter (eval (q_where q)) (map snd scanned) in
   if p_sort pl then sort_rows (q_order q) filtered else filtered.
+
+Definition exec_plan (pfx_of : index -> bytes) (t : list row) (q : query) (pl : plan) : list row :=
+  let ix := p_index pl in
+  exec_entries (pfx_of ix) (index_entries (pfx_of ix) (ix_cols ix) t) q pl.
 
 Definition exec (pfx_of : index -> bytes) (idxs : list index) (t : list row) (q : query)
   : option (list row) :=
@@ -464,3 +466,73 @@ Definition exec (pfx_of : index -> bytes) (idxs : list index) (t : list row) (q 
 (* MapKey(sqlPrefix, "M.", EncodeID(table), EncodeID(index)) *)
 Definition mk_pfx (base : bytes) (table_id : N) (i : index) : bytes :=
   base ++ be_enc 4 table_id ++ be_enc 4 (ix_id i).
+
+(* ------------------------------------------------------------------ inside an open transaction *)
+(* What a SELECT issued inside an open read-write transaction reads, as the engine does it
+   (store.OngoingTx.set, sql doUpsert / deprecateIndexEntries / deleteIndexEntries):
+   - through the PRIMARY index: the committed rows with the transaction's own writes and deletes
+     applied (the row key R.{table}{pk} is written in the transaction; the primary index maps it);
+   - through a SECONDARY index (its store index has a SourceEntryMapper, so OngoingTx.set does not
+     map row writes into it): every entry committed before BEGIN is still there and still resolves
+     to the committed row version -- deprecateIndexEntries puts its tombstone under a key without
+     the primary-key suffix (encodedValues[i+3] overwrites the pk slot) and deleteIndexEntries only
+     tombstones the primary row key -- plus ONE transient entry per distinct tuple of index-column
+     values written by the transaction, under the key M.{table}{index}{enc cols} WITHOUT the pk
+     suffix (doUpsert's smkey), holding the last row written with that tuple; no transient entry is
+     written when the row existed and keeps its tuple (reusableIndexEntries). *)
+Inductive txop := TxPut (r : row) | TxDel (id : Z).
+
+Definition sval_eqb (x y : sval) : bool :=
+  match x, y with
+  | None, None => true
+  | Some a, Some b => Z.eqb a b
+  | _, _ => false
+  end.
+
+Definition same_tuple (cs : list col) (c w : row) : bool :=
+  forallb (fun k => sval_eqb (getcol k c) (getcol k w)) cs.
+
+Fixpoint put_row (w : row) (view : list row) : list row :=
+  match view with
+  | [] => [w]
+  | c :: r => if Z.eqb (r_id c) (r_id w) then w :: r else c :: put_row w r
+  end.
+
+Fixpoint put_entry (k : bytes) (w : row) (tr : list entry) : list entry :=
+  match tr with
+  | [] => [(k, w)]
+  | e :: r => match bcmp k (fst e) with Eq => (k, w) :: r | _ => e :: put_entry k w r end
+  end.
+
+(* smkey of doUpsert: no primary-key suffix *)
+Definition transient_key (pfx : bytes) (cs : list col) (r : row) : bytes := pfx ++ enc_cols cs r.
+
+(* (rows visible through the primary key, transient entries of the secondary index cs) *)
+Fixpoint tx_run (pfx : bytes) (cs : list col) (ops : list txop) (view : list row) (tr : list entry)
+  : list row * list entry :=
+  match ops with
+  | [] => (view, tr)
+  | TxDel id :: r => tx_run pfx cs r (filter (fun c => negb (Z.eqb (r_id c) id)) view) tr
+  | TxPut w :: r =>
+      let reusable := match find (fun c => Z.eqb (r_id c) (r_id w)) view with
+                      | Some c => same_tuple cs c w
+                      | None => false
+                      end in
+      tx_run pfx cs r (put_row w view)
+             (if reusable then tr else put_entry (transient_key pfx cs w) w tr)
+  end.
+
+Definition tx_entries (pfx_of : index -> bytes) (i : index) (committed : list row) (ops : list txop)
+  : list entry :=
+  let '(view, tr) := tx_run (pfx_of i) (ix_cols i) ops committed [] in
+  if ix_primary i then index_entries (pfx_of i) (ix_cols i) view
+  else fold_right insert_entry (index_entries (pfx_of i) (ix_cols i) committed) tr.
+
+(* the table as the transaction should see it *)
+Definition tx_table (committed : list row) (ops : list txop) : list row :=
+  fst (tx_run [] [] ops committed []).
+
+Definition exec_plan_in_tx (pfx_of : index -> bytes) (committed : list row) (ops : list txop)
+           (q : query) (pl : plan) : list row :=
+  let ix := p_index pl in
+  exec_entries (pfx_of ix) (tx_entries pfx_of ix committed ops) q pl.
